@@ -270,6 +270,20 @@ def main():
                         s = rng.randrange(1, NC - 1)
                         k = rng.randint(-3, 3)
                         (lo if rng.random() < 0.5 else up)[s] += k
+                if n >= 9:
+                    # beyond 8 players (fixed-width integer types change behaviour there; seed C05-e): SPARSE bound vectors, so that the
+                    # numerators n! * exploitability stay inside TLC's 32-bit integers -- a few coalitions with a non-zero lower bound and a
+                    # few with a non-degenerate interval, chosen so that every player (the highest ones included) is a member of some
+                    lo = [0.0] * NC
+                    up = [0.0] * NC
+                    picks = [rng.randrange(1, NC - 1) for _ in range(5)] + [(1 << (n - 1)) | rng.randrange(1, NC // 2 - 1), (1 << (n - 2)) | rng.randrange(1, NC // 4)]
+                    for s in picks:
+                        lo[s] = float(rng.randint(-3, 6))
+                        up[s] = lo[s] + (float(rng.choice([0, 1, 2, 5])) if kind != 0 else 0.0)
+                    for s in range(1, NC - 1):
+                        if s not in picks:
+                            up[s] = lo[s]
+                    lo[-1] = up[-1] = float(rng.randint(0, 4))
                 if j % 7 == 6:
                     lo, up = [x * 2.0 ** -30 for x in lo], [x * 2.0 ** -30 for x in up]
                 if j % 7 == 5 and n <= 4:
@@ -279,7 +293,7 @@ def main():
                     up = [l + w for l, w in zip(lo, [0.0] + [float(rng.choice([0, 0, 1, 2])) for _ in range(NC - 1)])]
                     up[-1] = lo[-1]
                 traces.append(expl_trace(tid, n, lo, up))
-                if n <= 6 and kind in (0, 2, 4):          # domination: completions inside the box (corners and interior points)
+                if (n <= 6 or n >= 9) and kind in (0, 2, 4):          # domination: completions inside the box (corners and interior points)
                     lo2 = [min(l, u) for l, u in zip(lo, up)]
                     up2 = [max(l, u) for l, u in zip(lo, up)]
                     for _ in range(3):
